@@ -718,6 +718,10 @@ def oracle_compose(m: onnx.ModelProto, form: str, seed: int) -> list[tuple[str, 
         ml_v = rng.choice([3, 4])
         mixed_v = rng.choice([None, 18, 19, 21])
     if mixed_v is not None:
+        # collision seeking: a version another domain of m is imported at is a preferred target
+        other_vs = sorted({o.version for o in m.opset_import if o.domain not in ("", "ai.onnx") and 18 <= o.version <= 21 and o.version > opset})
+        if other_vs and rng.random() < 0.7:
+            mixed_v = rng.choice(other_vs)
         outer_v = mixed_v
     else:
         outer_v = max(opset, 17) if form != "mixed-opset" else rng.choice([v for v in (17, 18, 19, 20, 21) if v != opset])
@@ -1216,6 +1220,20 @@ def fixed_corner_models() -> list[tuple[onnx.ModelProto, dict]]:
     hm = mk([H.make_node("Hardmax", ["x"], ["y"])], [f3("x")], [f3("y")], opset=11)
     hm.ir_version = 7
     out.append((hm, ["opset-11", "version-family", "hardmax-pre-13"]))
+    # known (third-party): the Softmax 12 -> 13 adapter fails when the result is captured by a body
+    cap = mk([H.make_node("Softmax", ["x"], ["sx"]),
+              H.make_node("If", ["c"], ["y"], then_branch=H.make_graph([H.make_node("Neg", ["sx"], ["t"])], "then_g", [], [f3("t")]),
+                          else_branch=H.make_graph([H.make_node("Abs", ["sx"], ["t"])], "else_g", [], [f3("t")]))],
+             [f3("x"), cb], [f3("y")], opset=12)
+    cap.ir_version = 7
+    out.append((cap, ["opset-12", "version-family", "softmax-result-captured"]))
+    # known (third-party): values the converter introduces at two nesting levels get the same name
+    in2 = H.make_graph([H.make_node("Neg", ["u"], ["un0"]), H.make_node("Relu", ["un0"], ["un"]), H.make_node("ReduceMean", ["un"], ["um"], axes=[1], keepdims=1), H.make_node("Sub", ["u", "um"], ["t2"])], "then_g", [], [f3("t2")])
+    in3 = H.make_graph([H.make_node("Abs", ["u"], ["un0"]), H.make_node("Floor", ["un0"], ["un"]), H.make_node("ReduceMax", ["un"], ["um"], axes=[1], keepdims=1), H.make_node("Add", ["u", "um"], ["t2"])], "else_g", [], [f3("t2")])
+    lvl1 = lambda nm: H.make_graph([H.make_node("ReduceMin", ["x"], ["xm"], axes=[2], keepdims=1), H.make_node("Add", ["x", "xm"], ["u"]),  # noqa: E731
+                                    H.make_node("If", ["c"], ["t"], then_branch=in2, else_branch=in3)], nm, [], [f3("t")])
+    out.append((mk([H.make_node("If", ["c"], ["y"], then_branch=lvl1("then_g"), else_branch=lvl1("else_g"))], [f3("x"), cb], [f3("y")], opset=17),
+                ["opset-17", "version-family", "changed-operators-at-two-nesting-levels"]))
     # known: ai.onnx.ml 1 LabelEncoder (classes_strings) next to an ai.onnx.ml >= 2 operator of the outer program
     le = H.make_model(H.make_graph(
         [H.make_node("Cast", ["x"], ["xi"], to=TP.INT64), H.make_node("LabelEncoder", ["xi"], ["xs"], domain="ai.onnx.ml", classes_strings=["a", "b", "c"], default_string="a"),
@@ -1365,7 +1383,7 @@ def run(ck: core.Check):
                     if "adapt" in real:
                         rq["adapt"] = {
                             "varNames": list(dict.fromkeys(ctx["argNames"] + ctx["resNames"] + ctx["_adapt"]["extraVarNames"])),
-                            "imports": [o.version for o in mv.opset_import if o.domain in ("", "ai.onnx")],
+                            "importsAll": [[o.domain, o.version] for o in mv.opset_import],
                             "target": ctx["_adapt"]["target"],
                             "converted": real.get("adapt_converted"),
                         }
